@@ -8,6 +8,7 @@ The check pipeline shared by all properties (DESIGN.md §2.5):
 """
 import hashlib
 import json
+import tempfile
 import multiprocessing as mp
 import os
 import random
@@ -318,7 +319,11 @@ def run_check(prop, tier, seed, replay=None):
     }
     os.makedirs(os.path.join(VERIF, 'evidence'), exist_ok=True)
     if not replay:
-        with open(os.path.join(VERIF, 'evidence', prop.id + '.json'), 'w') as f:
+        # evidence/<id>.json records runs against /repo itself; a run against another source tree
+        # (REGIONS_SRC = a scratch worktree with a seeded change) writes beside it and never overwrites it
+        ev_name = prop.id + ('.json' if not os.environ.get('REGIONS_SRC') else '.seeded.json')
+        ev_dir = os.path.join(VERIF, 'evidence') if not os.environ.get('REGIONS_SRC') else tempfile.gettempdir()
+        with open(os.path.join(ev_dir, ev_name), 'w') as f:
             json.dump(evidence, f, indent=1)
     try:
         _report(prop, out_lines, tier, seed, n_obl, n_dis, results, disagreements, new_viol, known_hits, broken, evidence)
